@@ -247,9 +247,9 @@ class CVIART(BaseART):
             Epsilon value used for adjusting match criterion, by default 0.0.
 
         """
-        self.data = X
         self.base_module.validate_data(X)
         self.base_module.check_dimensions(X)
+        self.data = X
         self.is_fitted_ = True
 
         self.W: list[np.ndarray] = []
